@@ -35,3 +35,8 @@ cat > /tmp/m_time_seed.diff <<'EOP'
      boost::mt19937 gen;
 EOP
 echo "=== time-seed mutant -> C12"; KEEP=/verif/replays/fixed/1daf074 TAIL=4 tools/try_patch.sh /tmp/m_time_seed.diff C12 quick
+# F25 (fd3e9e7) is too rare for a quick search (1 run in ~17000 of the modes lane): its minimised replay is executed against the reverted commit instead
+git -C /repo diff fd3e9e7~1 fd3e9e7 > /tmp/rev-fd3e9e7.diff
+python3 -c "
+import json; d=json.load(open('/verif/replays/fixed/fd3e9e7/C09-1-6624-thorough.json')); open('/tmp/plan-fd3e9e7.txt','w').write(d['swarm']+'\n'+'\n'.join(d['plan'])+'\n')"
+echo "=== revert fd3e9e7 -> replay of replays/fixed/fd3e9e7/C09-1-6624-thorough.json"; TAIL=3 tools/try_patch.sh /tmp/rev-fd3e9e7.diff exec /tmp/plan-fd3e9e7.txt -R 2>&1 | grep "^{" | cut -c1-220
